@@ -49,7 +49,10 @@ impl Reservoir {
         if idx < self.values.len() {
             self.values[idx].store(value.to_bits(), Relaxed);
         } else {
-            let maybe_idx = fastrand(idx);
+            // Algorithm R: the item at stream position `idx` (the `idx + 1`-th item) replaces a slot chosen uniformly from
+            // `[0, idx]`, so that it is kept with probability `capacity / (idx + 1)`. Drawing from `[0, idx)` instead biases
+            // the sample towards later items, and asks for the empty range `0..0` (a panic) when the capacity is zero.
+            let maybe_idx = fastrand(idx + 1);
             if maybe_idx < self.values.len() {
                 self.values[maybe_idx].store(value.to_bits(), Relaxed);
             }
